@@ -276,7 +276,7 @@ class C36(Check):
         fns, dropped = gg.compile_functions(seed % 100000, 4)
         res.dropped.update(dropped)
         # deterministic selection of n functions spread over the optimisation levels
-        n = max(8, n // 2)
+        n = max(6, n // 4)
         fns.sort(key=lambda f: (f["tag"], f["opt"]))
         step = max(1, len(fns) // n)
         if step % 2 == 0:
